@@ -7,8 +7,8 @@ use rlverif::*;
 use sched_common::*;
 
 pub const GATES: &[&str] = &[
-    "cmd.begin", "db.bound", "txn.pinned", "txn.locked", "vm.commit.begin", "vm.committed",
-    "ddl.drop.applied", "cp.pinned", "cp.table", "cp.locked", "cp.pass.end",
+    "cmd.begin", "db.bound", "txn.lock.begin", "txn.pinned", "txn.locked", "vm.commit.begin", "vm.committed",
+    "ddl.drop.applied", "cp.pass.begin", "cp.table", "cp.locked", "cp.pass.end",
 ];
 
 fn gates() -> Vec<String> {
@@ -70,7 +70,7 @@ fn witnesses() -> Vec<Case> {
                 Cmd::Delete("t1".into(), "lt".into(), 3),
             ],
             vec![vec![Cmd::Drop("t1".into())], vec![Cmd::Compact]],
-            vec![(2, "cp.pinned"), (1, "vm.commit.begin"), (2, "end"), (1, "end")],
+            vec![(2, "cp.pass.begin"), (1, "vm.commit.begin"), (2, "end"), (1, "end")],
         ),
         // two sessions DROP the same table: both are bound before either applies; the second one's
         // executors are built for a table that is gone (`Builder::new` unwraps the catalog entry)
